@@ -333,7 +333,9 @@ def oracle_maps(ctx, key, g, rng):
 # ----------------------------------------------------------------------------- part B: step expansion partitions
 PAIRS = [(0.0, 1.0), (0.0, 0.1), (2.0, 0.7), (1.0, 0.3), (-1.0, 0.2), (0.0, 0.25), (5.0, 1.0 / 3), (0.1, 0.1), (-3.0, 1.1), (10.0, 0.01),
          (0.0, 1.0 / 7), (1e3, 0.1), (0.5, 0.05), (-0.7, 0.7), (0.0, 3.0), (2.5, 0.6), (0.0, 0.9), (1.0, 1e-3), (-10.0, 2.3), (0.3, 0.3),
-         (0.0, 1.0 / 9), (7.0, 0.07), (0.2, 1.7), (100.0, 1.0), (-0.1, 0.01), (0.0, 0.6), (4.0, 0.45), (0.0, 1e2), (1.0 / 3, 1.0 / 3), (0.9, 0.11)]
+         (0.0, 1.0 / 9), (7.0, 0.07), (0.2, 1.7), (100.0, 1.0), (-0.1, 0.01), (0.0, 0.6), (4.0, 0.45), (0.0, 1e2), (1.0 / 3, 1.0 / 3), (0.9, 0.11),
+         # extreme scales (tolerance-based regularity test, interval ends at large offsets)
+         (0.0, 1e-12), (0.0, 1e12), (1e12, 1.0), (-1e6, 1e-3), (3e-12, 7e-13)]
 
 
 def part_step(ctx, cuqi, thorough):
@@ -1377,6 +1379,218 @@ def part_inplace(ctx, cuqi, thorough):
                 break
 
 
+
+# ----------------------------------------------------------------------------- part K: array properties other than the numbers
+def _layouts(X, rng):
+    """the SAME numbers as the C-contiguous float64 array X in other memory layouts / dtypes / containers"""
+    X = np.ascontiguousarray(X, dtype=float)
+    out = [("F", np.asfortranarray(X))]
+    if X.ndim >= 2:
+        out.append(("transposed-view", np.ascontiguousarray(X.T).T))
+    big = np.zeros((2 * X.shape[0],) + X.shape[1:]); big[::2] = X
+    out.append(("strided[::2]", big[::2]))
+    out.append(("negative-strides", np.ascontiguousarray(X[::-1])[::-1]))
+    if X.ndim >= 2:
+        bigF = np.asfortranarray(np.zeros((X.shape[0] + 2,) + X.shape[1:-1] + (X.shape[-1] + 1,))); bigF[1:-1, ..., :-1] = X
+        out.append(("slice-of-F-array", bigF[1:-1, ..., :-1]))
+    ro = X.copy(); ro.flags.writeable = False
+    out.append(("read-only", ro))
+    roF = np.asfortranarray(X.copy()); roF.flags.writeable = False
+    out.append(("read-only-F", roF))
+    for dt in (np.int64, np.int32, np.float32):
+        out.append((np.dtype(dt).name, X.astype(dt)))
+        out.append((np.dtype(dt).name + "-F", np.asfortranarray(X.astype(dt))))
+    out.append(("list", X.tolist()))
+    return out
+
+
+def _snap(v):
+    return np.array(v, dtype=float).tobytes() if not isinstance(v, list) else repr(v)
+
+
+def part_layouts(ctx, cuqi, gs, thorough):
+    """Every map of every geometry class, the Samples / CUQIarray conversions and the KL / mapped
+    expansions, fed with the same numbers in different memory layouts, dtypes and containers: equal
+    results (the model only sees the numbers).  Inputs must not be modified; returned arrays are kept
+    and re-verified at the end."""
+    from cuqi.geometry import KLExpansion, StepExpansion, MappedGeometry, Continuous2D
+    from cuqi.samples import Samples
+    from cuqi.array import CUQIarray
+    rng = np.random.RandomState(ctx.seed + 1310)
+    retained = []
+    pool = []
+    seen = set()
+    for g in gs:           # one instance per class × shape family is enough in quick
+        sig = (g.name, len(g.fun_shape), g.fun_shape[0] == g.fun_shape[-1])
+        if "noinverse" in g.name or (not thorough and sig in seen):
+            continue
+        seen.add(sig); pool.append(g)
+    extra = [G("KLExpansion", None, lambda: KLExpansion(np.linspace(0, 1, 8), num_modes=3), 3, (8,), exact_inverse=False),
+             G("KLExpansion", None, lambda: KLExpansion(np.linspace(0, 1, 6)), 6, (6,)),
+             G("Mapped(KLExpansion)", None, lambda: MappedGeometry(KLExpansion(np.linspace(0, 1, 8), num_modes=4), map=lambda x: np.asarray(x, dtype=float) / 3 + 1, imap=lambda y: 3 * (np.asarray(y, dtype=float) - 1)), 4, (8,), exact_inverse=False),
+             G("Mapped(Continuous2D)", None, lambda: MappedGeometry(Continuous2D((2, 3)), map=lambda x: np.exp(np.asarray(x, dtype=float) / 4), imap=lambda y: 4 * np.log(np.asarray(y, dtype=float))), 6, (2, 3))]
+    for g in pool + extra:
+        o = g.obj
+        positive = g.name == "Mapped(Continuous2D)" and g.spec is None
+        for op in ("par2fun", "fun2par", "fun2vec", "vec2fun", "par2vec"):
+            if not hasattr(o, op):
+                continue
+            in_shape = (g.par_dim,) if op in ("par2fun", "par2vec") else ((int(np.prod(g.fun_shape)),) if op == "vec2fun" else g.fun_shape)
+            for ns in (None, 3):
+                if ns is not None and op in ("fun2vec", "vec2fun"):
+                    continue
+                X = ints(rng, in_shape if ns is None else in_shape + (ns,), 1 if positive else -9, 9)
+                if positive and op != "par2fun":
+                    X = np.exp(X / 4.0)
+                ref = call(getattr(o, op), X.copy())
+                if isinstance(ref, BaseException):
+                    continue       # the conversion is not offered (NotImplementedError) or refused for the plain array as well
+                ref = np.array(ref, dtype=float)
+                for (lname, V) in _layouts(X, rng):
+                    if positive and op != "par2fun" and lname.startswith("int"):
+                        continue   # exp values are not integers
+                    desc = {"geometry": g.spec or g.name, "op": op, "layout": lname, "shape": list(np.shape(X))}
+                    ctx.case("layout", desc)
+                    key = f"layout:{g.name}:{op}"
+                    before = _snap(V)
+                    r = call(getattr(o, op), V)
+                    if isinstance(r, BaseException):
+                        if lname == "list":
+                            continue     # python lists may be refused; if accepted the result must be right
+                        ctx.fail(key + ":raises", {**desc, "x": short(X.tolist())}, short(ref.tolist()), repr(r)[:120], "the same numbers in another memory layout / dtype are refused")
+                        continue
+                    tol = 1e-5 if lname.startswith("float32") else 1e-11
+                    if not _cmp(r, ref, tol):
+                        ctx.fail(key, {**desc, "x": short(X.tolist())}, short(ref.tolist()), short(np.asarray(r, dtype=float).tolist()),
+                                 "result depends on the memory layout / dtype / container of the array handed in, not only on its numbers")
+                    if _snap(V) != before:
+                        ctx.fail(key + ":input-modified", desc, "input untouched", "input changed", "the caller's array was modified")
+                    if isinstance(r, np.ndarray) and not (isinstance(V, np.ndarray) and np.shares_memory(r, V)):
+                        retained.append((key, desc, r, np.array(r, copy=True)))
+        # round trips in every layout (fun -> par -> fun and par -> fun -> par)
+        if g.exact_inverse or True:
+            P = ints(rng, (g.par_dim,), 1 if positive else -9, 9)
+            f = call(o.par2fun, P.copy())
+            if not isinstance(f, BaseException):
+                for (lname, V) in _layouts(np.array(f, dtype=float), rng):
+                    if lname.startswith("int") or lname.startswith("float32") or lname == "list":
+                        continue
+                    back = call(o.fun2par, V)
+                    if isinstance(back, BaseException) or not _cmp(np.asarray(back).reshape(-1), P, 1e-8):
+                        ctx.fail(f"layout:{g.name}:roundtrip", {"geometry": g.spec or g.name, "layout": lname, "p": P.tolist()}, P.tolist(), short(repr(back)),
+                                 "fun2par(par2fun(p)) != p when the function values are held in another memory layout")
+                    # containers
+                    c = call(lambda: CUQIarray(V, is_par=False, geometry=o))
+                    cp = call(lambda: np.asarray(c.parameters)) if not isinstance(c, BaseException) else c
+                    if isinstance(cp, BaseException) or not _cmp(np.asarray(cp).reshape(-1), P, 1e-8):
+                        ctx.fail(f"layout:{g.name}:CUQIarray", {"geometry": g.spec or g.name, "layout": lname, "p": P.tolist()}, P.tolist(), short(repr(cp)),
+                                 "CUQIarray(f, is_par=False).parameters depends on the memory layout of f")
+                    elif not _cmp(c.to_numpy(), np.asarray(f, dtype=float), 1e-11):
+                        ctx.fail(f"layout:{g.name}:CUQIarray", {"geometry": g.spec or g.name, "layout": lname}, "to_numpy() == f", short(c.to_numpy().tolist()))
+        # Samples whose sample array is F-ordered / strided / read-only / integer
+        P = ints(rng, (g.par_dim, 3), 1 if positive else -9, 9)
+        refS = call(lambda: Samples(P.copy(), geometry=o).funvals)
+        if not isinstance(refS, BaseException):
+            for (lname, V) in _layouts(P, rng):
+                if lname == "list":
+                    continue
+                desc = {"geometry": g.spec or g.name, "layout": lname}
+                ctx.case("layout-samples", desc)
+                fS = call(lambda: Samples(V, geometry=o).funvals)
+                tol = 1e-5 if lname.startswith("float32") else 1e-11
+                if isinstance(fS, BaseException) or not _cmp(fS.samples, refS.samples, tol):
+                    ctx.fail(f"layout:{g.name}:Samples:funvals", desc, short(refS.samples.tolist()), short(repr(fS if isinstance(fS, BaseException) else fS.samples.tolist())),
+                             "Samples.funvals depends on the memory layout / dtype of the sample array")
+                    continue
+                if lname in ("F", "strided[::2]", "read-only-F"):
+                    V2 = np.asfortranarray(fS.samples)
+                    pS = call(lambda: Samples(V2, geometry=o, is_par=False, is_vec=fS.is_vec).parameters)
+                    if isinstance(pS, BaseException) or not _cmp(pS.samples, P, 1e-8):
+                        ctx.fail(f"layout:{g.name}:Samples:roundtrip", desc, short(P.tolist()), short(repr(pS if isinstance(pS, BaseException) else pS.samples.tolist())),
+                                 "funvals (held F-ordered) -> parameters does not return the parameters")
+    for (key, desc, r, cpy) in retained:
+        if not np.array_equal(r, cpy, equal_nan=True):
+            ctx.fail(key + ":retained-output-changed", desc, "an array returned earlier keeps its values", "changed by a later call", "returned arrays alias internal buffers")
+    ctx.extra_cov["retained_outputs_reverified"] = len(retained)
+
+
+# ----------------------------------------------------------------------------- part L: shape-changing invertible maps, nested wrappers
+def part_shape_maps(ctx, cuqi, thorough):
+    """MappedGeometry whose map changes the SHAPE of the function values (with an inverse), and nested
+    wrappers: reported fun_shape / fun_dim are what par2fun produces, Samples / CUQIarray buffers fit,
+    per-sample consistency and funvals -> parameters round trip."""
+    from cuqi.geometry import KLExpansion, StepExpansion, Continuous1D, Continuous2D, Image2D, Discrete, MappedGeometry
+    from cuqi.samples import Samples
+    from cuqi.array import CUQIarray
+    rng = np.random.RandomState(ctx.seed + 1311)
+    def symext(n):
+        return (lambda f: np.concatenate([f, f[::-1]], axis=0), lambda g_: g_[:n])
+    def to2d(a, b):
+        return (lambda f: np.reshape(f, (a, b) + np.shape(f)[1:]), lambda g_: np.reshape(g_, (a * b,) + np.shape(g_)[2:]))
+    def flat2(a, b):   # (a, b[, ns]) -> (a*b[, ns])
+        return (lambda f: np.reshape(f, (a * b,) + np.shape(f)[2:]), lambda g_: np.reshape(g_, (a, b) + np.shape(g_)[1:]))
+    plus3 = (lambda x: x + 3.0, lambda y: y - 3.0)
+    fexp = (lambda x: np.exp(np.asarray(x, dtype=float) / 4), lambda y: 4 * np.log(np.asarray(y, dtype=float)))
+    grid = np.arange(6.0)
+    cases = [
+        ("Mapped(Continuous1D,symext)", lambda: MappedGeometry(Continuous1D(5), *symext(5)), 5, (10,)),
+        ("Mapped(StepExpansion,symext)", lambda: MappedGeometry(StepExpansion(grid, n_steps=3), *symext(6)), 3, (12,)),
+        ("Mapped(KLExpansion,symext)", lambda: MappedGeometry(KLExpansion(np.linspace(0, 1, 8), num_modes=3), *symext(8)), 3, (16,)),
+        ("Mapped(Discrete,symext)", lambda: MappedGeometry(Discrete(4), *symext(4)), 4, (8,)),
+        ("Mapped(Continuous1D,to2d)", lambda: MappedGeometry(Continuous1D(6), *to2d(2, 3)), 6, (2, 3)),
+        ("Mapped(StepExpansion,to2d)", lambda: MappedGeometry(StepExpansion(grid, n_steps=3), *to2d(3, 2)), 3, (3, 2)),
+        ("Mapped(Continuous2D,flatten)", lambda: MappedGeometry(Continuous2D((2, 3)), *flat2(2, 3)), 6, (6,)),
+        ("Mapped(Image2D-F,flatten)", lambda: MappedGeometry(Image2D((3, 2), order="F"), *flat2(3, 2)), 6, (6,)),
+        ("Mapped(Mapped(Continuous2D,exp),+3)", lambda: MappedGeometry(MappedGeometry(Continuous2D((2, 3)), *fexp), *plus3), 6, (2, 3)),
+        ("Mapped(Mapped(StepExpansion,+3),symext)", lambda: MappedGeometry(MappedGeometry(StepExpansion(grid, n_steps=3), *plus3), *symext(6)), 3, (12,)),
+        ("Mapped(Mapped(KLExpansion,exp),+3)", lambda: MappedGeometry(MappedGeometry(KLExpansion(np.linspace(0, 1, 8), num_modes=4), *fexp), *plus3), 4, (8,)),
+        ("Mapped(Mapped(Continuous1D,symext),to2d)", lambda: MappedGeometry(MappedGeometry(Continuous1D(3), *symext(3)), *to2d(2, 3)), 3, (2, 3)),
+        ("Mapped(Mapped(Image2D,+3),exp)", lambda: MappedGeometry(MappedGeometry(Image2D((2, 3)), *plus3), *fexp), 6, (2, 3)),
+    ]
+    for (name, mk, pd, fs) in cases:
+        with quiet():
+            g = mk()
+        desc = {"geometry": name}
+        ctx.case("shape-map", desc)
+        key = f"shape-map:{name}"
+        p = 0.25 * ints(rng, (pd,), 1, 8)
+        f = call(g.par2fun, p.copy())
+        if isinstance(f, BaseException):
+            ctx.fail(key + ":par2fun", desc, "defined", repr(f)[:100]); continue
+        fsh, fdim = call(lambda: g.fun_shape), call(lambda: g.fun_dim)
+        if isinstance(fsh, BaseException) or tuple(fsh) != np.shape(f) or np.shape(f) != fs:
+            ctx.fail(key + ":fun_shape", {**desc, "p": p.tolist()}, list(np.shape(f)), repr(fsh), "fun_shape is not the shape par2fun produces")
+        if isinstance(fdim, BaseException) or fdim != int(np.prod(np.shape(f))):
+            ctx.fail(key + ":fun_dim", desc, int(np.prod(np.shape(f))), repr(fdim), "fun_dim is not the number of function values par2fun produces")
+        if tuple(call(lambda: g.par_shape)) != (pd,) or call(lambda: g.par_dim) != pd:
+            ctx.fail(key + ":par_shape", desc, (pd,), repr(call(lambda: g.par_shape)))
+        back = call(g.fun2par, f)
+        if isinstance(back, BaseException) or not _cmp(np.asarray(back).reshape(-1), p, 1e-8):
+            ctx.fail(key + ":roundtrip", {**desc, "p": p.tolist()}, p.tolist(), short(repr(back)), "fun2par(par2fun(p)) != p")
+        for ns in (1, 3):
+            P = 0.25 * ints(rng, (pd, ns), 1, 8)
+            S = Samples(P.copy(), geometry=g)
+            fS = call(lambda: S.funvals)
+            if isinstance(fS, BaseException):
+                ctx.fail(key + ":Samples:funvals", {**desc, "ns": ns}, "funvals defined", repr(fS)[:120], "the buffer allocated from fun_shape does not fit what par2fun produces"); continue
+            if fS.samples.shape != np.shape(f) + (ns,):
+                ctx.fail(key + ":Samples:shape", {**desc, "ns": ns}, list(np.shape(f) + (ns,)), list(fS.samples.shape), "funvals array is mis-shaped")
+            for i in range(ns):
+                if not _cmp(fS.samples[..., i], call(g.par2fun, P[:, i].copy()), 1e-11):
+                    ctx.fail(key + ":Samples:per-sample", {**desc, "sample": i}, "funvals[..., i] == par2fun(sample i)", "differs"); break
+            pS = call(lambda: fS.parameters)
+            if isinstance(pS, BaseException) or not _cmp(pS.samples, P, 1e-8):
+                ctx.fail(key + ":Samples:roundtrip", {**desc, "ns": ns}, short(P.tolist()), short(repr(pS if isinstance(pS, BaseException) else pS.samples.tolist())),
+                         "funvals -> parameters does not return the parameters")
+        c = call(lambda: CUQIarray(p.copy(), geometry=g).funvals)
+        if isinstance(c, BaseException) or np.shape(c) != np.shape(f) or not _cmp(np.asarray(c), f, 1e-11):
+            ctx.fail(key + ":CUQIarray:funvals", desc, list(np.shape(f)), repr(c)[:100] if isinstance(c, BaseException) else list(np.shape(c)))
+        else:
+            cb = call(lambda: np.asarray(c.parameters))
+            if isinstance(cb, BaseException) or not _cmp(cb, p, 1e-8):
+                ctx.fail(key + ":CUQIarray:roundtrip", desc, p.tolist(), short(repr(cb)))
+
+
 # ----------------------------------------------------------------------------- entry
 def run(ctx):
     cuqi = import_cuqi()
@@ -1401,3 +1615,5 @@ def run(ctx):
     part_scipy_dst(ctx, cuqi, thorough)
     part_dtypes(ctx, cuqi, thorough)
     part_inplace(ctx, cuqi, thorough)
+    part_layouts(ctx, cuqi, gs, thorough)
+    part_shape_maps(ctx, cuqi, thorough)
